@@ -152,7 +152,7 @@ fn job_spec(nloc: u16, dims: usize) -> impl Strategy<Value = JobSpec> {
     ];
     (
         kind,
-        prop::collection::vec(prop::collection::vec(place_spec(nloc), 1..=2), 3),
+        prop::collection::vec(prop::collection::vec(place_spec(nloc), 1..=3), 3),
         prop::collection::vec(0u8..4, dims),
         0u8..8,
         0u8..6,
@@ -391,7 +391,8 @@ pub fn render(spec: &ProblemSpec) -> Rendered {
                         duration: p.duration as f64,
                         times: windows_of(p, f & F_WINDOWS != 0),
                         // the documentation asks for tags only where places have to be told apart: leave the first of several untagged
-                        tag: (!(f & F_UNTAGGED != 0 && count > 1 && pi == 0)).then(|| format!("{id}_t{ti}_p{pi}")),
+                        // (even jobs: the first place, odd jobs: the last place, so that an untagged place follows tagged ones too)
+                        tag: (!(f & F_UNTAGGED != 0 && count > 1 && pi == if ji % 2 == 0 { 0 } else { count - 1 })).then(|| format!("{id}_t{ti}_p{pi}")),
                     })
                     .collect(),
                 demand,
